@@ -24,15 +24,18 @@ def symcoef_jobs(name, ops, tier, seed, extra_configs=()):
         cfgs = [dict(p=1, exhaustive=True, max_cases=400), dict(p=0, q=1, exhaustive=True),
                 dict(p=0, q=0, r=1, exhaustive=True)]
         rnd = [dict(c, random=12) for c in SIGS_SMALL[::2]] + [dict(p=3, q=0, r=1, random=10), dict(p=2, q=2, r=0, random=8)]
-        chunks = [cfgs, rnd[:len(rnd) // 2], rnd[len(rnd) // 2:]]
-        bound = 'all ordered key-tuple pairs for d<=1; 8-12 seeded random patterns (sparse/grade/permuted/full) per signature, d<=4'
+        # algebras above six dimensions use the lazily filled sign table: sparse operands only (a dense one has 128+ blades)
+        lazy = [dict(p=7, random=3, modes=['sparse', 'perm']), dict(p=4, q=3, r=1, random=2, modes=['sparse'])]
+        chunks = [cfgs + lazy, rnd[:len(rnd) // 2], rnd[len(rnd) // 2:]]
+        bound = 'all ordered key-tuple pairs for d<=1; 8-12 seeded random patterns (sparse/grade/permuted/full) per signature, d<=4; sparse patterns in d = 7, 8 (lazy sign table)'
     else:
         cfgs = [dict(p=1, exhaustive=True), dict(q=1, exhaustive=True), dict(r=1, exhaustive=True)]
         d2 = [dict(p=p, q=q, r=2 - p - q, exhaustive=True, max_cases=4225) for p in range(3) for q in range(3 - p)]
         rnd = [dict(c, random=60) for c in SIGS_SMALL] + [dict(p=3, q=0, r=1, random=60), dict(p=2, q=2, r=0, random=60),
                                                           dict(p=4, q=1, r=0, random=40), dict(p=3, q=1, r=1, random=40)]
-        chunks = [cfgs] + [[c] for c in d2] + [rnd[i::6] for i in range(6)]
-        bound = 'all ordered pairs for d<=1; all 65^2 ordered-subset pairs per d=2 signature; 40-60 seeded patterns per signature d<=5'
+        lazy = [dict(p=7, random=10, modes=['sparse', 'perm']), dict(p=4, q=3, r=1, random=8, modes=['sparse', 'perm']), dict(p=6, q=0, r=1, random=8, modes=['sparse'])]
+        chunks = [cfgs + lazy] + [[c] for c in d2] + [rnd[i::6] for i in range(6)]
+        bound = 'all ordered pairs for d<=1; all 65^2 ordered-subset pairs per d=2 signature; 40-60 seeded patterns per signature d<=5; sparse patterns in d = 7, 8 (lazy sign table)'
     for i, ch in enumerate(chunks):
         jobs.append({'name': f'symcoef[{name}]#{i}', 'bound': bound,
                      'job': {'kind': 'symcoef', 'ops': list(ops), 'configs': list(ch) + (list(extra_configs) if i == 0 else []),
